@@ -6,6 +6,7 @@ import LdkModel.Proofs.Bech32
 import LdkModel.Generated.C18Consts
 import LdkModel.Proofs.Merkle
 import LdkModel.Proofs.Bolt11
+import LdkModel.Proofs.Bolt11Bounds
 import LdkModel.Proofs.Bits
 import LdkModel.Proofs.OfferMeta
 namespace Ldk.C18
@@ -600,6 +601,330 @@ example : invoiceCovered true [⟨[0], [0, 1, 5]⟩, ⟨[88], [88, 1, 9]⟩, ⟨
 example : invoiceCovered false [⟨[0], [0, 1, 5]⟩, ⟨[88], [88, 1, 9]⟩, ⟨[160], [160, 0]⟩] = [⟨[88], [88, 1, 9]⟩] := by decide
 
 end metadata
+
+/-! ## BOLT-11: numeric bounds and field widths
+    Every comparison, literal and panic site below is a definition of `Generated/C18Bounds.lean`,
+    translated from lightning-invoice's lib.rs / de.rs / ser.rs on every run (gen_c18_bounds.py): a
+    flipped comparison or changed width in the source changes those definitions and breaks the
+    theorem that states what the bound is FOR. -/
+section bounds
+open Ldk Ldk.Bolt11 Ldk.C18Consts
+
+/-- The constructor accepts exactly what the wire format can carry: `from_unix_timestamp` (and with it
+    `from_duration_since_epoch`, `from_system_time`, `InvoiceBuilder::duration_since_epoch`) accepts
+    `t` iff `t` fits the `TIMESTAMP_BITS` = 35-bit field. -/
+theorem timestamp_constructor_range (t : Nat) : positiveTimestamp t = some t ↔ t < 2 ^ TIMESTAMP_BITS := by
+  have key : C18Bounds.fromUnixTimestampOk t = true ↔ t < 2 ^ 35 := by
+    unfold C18Bounds.fromUnixTimestampOk C18Bounds.MAX_TIMESTAMP TIMESTAMP_BITS
+    rw [decide_eq_true_iff]
+    omega
+  unfold positiveTimestamp
+  by_cases h : C18Bounds.fromUnixTimestampOk t = true
+  · simpa [h, TIMESTAMP_BITS] using key.mp h
+  · simp only [h, Bool.false_eq_true, ↓reduceIte, reduceCtorEq, false_iff]
+    exact fun hc => h (key.mpr hc)
+
+/-- … in the form the parser relies on (`Err(_) => unreachable!()`): range of the 35-bit decoder ⊆
+    range accepted by the constructor. -/
+theorem timestamp_field_accepted : ∀ t, t < 2 ^ 35 → C18Bounds.fromUnixTimestampOk t = true := by
+  intro t ht
+  have := (timestamp_constructor_range t).mpr (by simpa [TIMESTAMP_BITS] using ht)
+  unfold positiveTimestamp at this
+  split at this
+  · assumption
+  · simp at this
+
+/-- what the builder must refuse: a timestamp that does not fit is rejected
+    (`CreationError::TimestampOutOfBounds`) — and it is exactly those the serialiser could not write
+    (`to_pad = 7 - fes.len()` would underflow). -/
+theorem timestamp_rejected_iff_unserializable (t : Nat) :
+    positiveTimestamp t = none ↔ timestampSerializable t = false := by
+  have h1 := timestamp_constructor_range t
+  have h2 : timestampSerializable t = true ↔ t < 2 ^ TIMESTAMP_BITS := by
+    unfold timestampSerializable
+    exact decide_eq_true_iff.trans (encodeIntBe_length_le_iff t 7)
+  unfold positiveTimestamp at h1 ⊢
+  split
+  · rename_i hc
+    simp only [hc, ↓reduceIte, true_iff] at h1
+    simp [h2.mpr h1]
+  · rename_i hc
+    simp only [hc, Bool.false_eq_true, ↓reduceIte, reduceCtorEq, false_iff, Nat.not_lt] at h1
+    have : ¬ timestampSerializable t = true := fun h => by have := h2.mp h; omega
+    simp [this]
+
+/-- `parse_u64_be` (checked multiply-by-32 / add fold in u64) in closed form, for every symbol list. -/
+theorem parseU64Be_eq (d : List U5) :
+    parseU64Be d = if parseIntBe d < 2 ^ C18Bounds.PARSE_U64_BITS then some (parseIntBe d) else none := by
+  rw [parseU64Be_closed]; rfl
+
+/-- The 35-bit decoder: any `TIMESTAMP_LEN` = 7 symbols decode without overflow
+    (`.expect("7*5bit < 64bit, no overflow possible")`) to a value below `2 ^ TIMESTAMP_BITS`, and
+    every such value is reached. -/
+theorem timestamp_decoder_range :
+    (∀ b : List U5, (∀ x ∈ b, x < 32) → b.length = TIMESTAMP_LEN →
+        parseU64Be b = some (parseIntBe b) ∧ parseIntBe b < 2 ^ TIMESTAMP_BITS) ∧
+    (∀ t, t < 2 ^ TIMESTAMP_BITS → (∀ x ∈ encodeTimestamp t, x < 32) ∧
+        (encodeTimestamp t).length = TIMESTAMP_LEN ∧ parseIntBe (encodeTimestamp t) = t) := by
+  constructor
+  · intro b hv hl
+    have hlt := parseIntBe_lt b hv
+    rw [hl] at hlt
+    have h35 : parseIntBe b < 2 ^ 35 := hlt
+    refine ⟨?_, h35⟩
+    rw [parseU64Be_closed]
+    have : parseIntBe b < 2 ^ 64 := Nat.lt_trans h35 (by decide)
+    simp [this]
+  · intro t ht
+    refine ⟨?_, encodeTimestamp_length t ht, parseIntBe_encodeTimestamp t⟩
+    intro x hx
+    unfold encodeTimestamp at hx
+    rcases List.mem_append.mp hx with h | h
+    · have := (List.mem_replicate.mp h).2; subst this; decide
+    · exact encodeIntBe_valid t x h
+
+/-- TOTALITY of the timestamp parser: on valid symbols `PositiveTimestamp::from_base32` returns the
+    value or `InvalidSliceLength` (wrong number of symbols) — it never reaches
+    `.expect(..)` / `unreachable!()`. -/
+theorem timestamp_decode_never_panics (b : List U5) (hv : ∀ x ∈ b, x < 32) :
+    (b.length = TIMESTAMP_LEN ∧ timestampFromBase32 b = .ok (parseIntBe b)) ∨
+    (b.length ≠ TIMESTAMP_LEN ∧ timestampFromBase32 b = .invalidSliceLength) := by
+  by_cases hl : b.length = 7
+  · exact Or.inl ⟨hl, timestampFromBase32_ok b hv hl timestamp_field_accepted⟩
+  · refine Or.inr ⟨hl, ?_⟩
+    simp [timestampFromBase32, C18Bounds.timestampWrongLen, hl]
+
+/-- Round trip for ALL values of the field: every `t < 2^35` is accepted by the constructor, is
+    written as exactly seven symbols without underflow, and reads back as `t`. -/
+theorem timestamp_roundtrip (t : Nat) (ht : t < 2 ^ TIMESTAMP_BITS) :
+    positiveTimestamp t = some t ∧ timestampSerializable t = true ∧
+      timestampFromBase32 (encodeTimestamp t) = .ok t := by
+  obtain ⟨hv, hl, hp⟩ := timestamp_decoder_range.2 t ht
+  refine ⟨(timestamp_constructor_range t).mpr ht, ?_, ?_⟩
+  · unfold timestampSerializable
+    exact decide_eq_true_iff.mpr ((encodeIntBe_length_le_iff t 7).mpr ht)
+  · have := timestampFromBase32_ok _ hv hl timestamp_field_accepted
+    rw [hp] at this
+    exact this
+
+/-- non-vacuity: the boundary values -/
+example : positiveTimestamp 0 = some 0 ∧ positiveTimestamp 34359738367 = some 34359738367 ∧
+    positiveTimestamp 34359738368 = none := by decide
+example : timestampFromBase32 [31, 31, 31, 31, 31, 31, 31] = .ok 34359738367 := by decide
+example : encodeTimestamp 34359738367 = [31, 31, 31, 31, 31, 31, 31] ∧ encodeTimestamp 1 = [0, 0, 0, 0, 0, 0, 1] := by decide
+
+/-- TOTALITY of the BOLT-11 parser (model of `FromStr for SignedRawBolt11Invoice`): for EVERY input
+    string the result is `Ok` or a `Bolt11ParseError` — no panic site (`expect`, `unreachable!()`,
+    the `Description::new(..).expect(..)`) is reachable.  Rests on: bech32 hands over 5-bit symbols
+    only; seven symbols stay below `2^35`, which the constructor accepts
+    (`timestamp_field_accepted`); a 10-bit length carries at most 1023 symbols = 639 bytes, which
+    `Description::new` accepts. -/
+theorem parser_never_panics (s : Bytes) : parseSigned s ≠ .error .panicked :=
+  parseSigned_not_panicked timestamp_field_accepted s
+
+/-- … and what it returns can be serialised again without tripping an assertion: the timestamp fits
+    seven symbols, every field (known fields in the form `ser.rs` writes) fits the 10-bit length
+    (`assert!(len < 1024)` in `write_tagged_field`). -/
+theorem parsed_invoice_reserializable (s : Bytes) (i : SignedRaw) (h : parseSigned s = .ok i) :
+    positiveTimestamp i.timestamp = some i.timestamp ∧ timestampSerializable i.timestamp = true ∧
+      ∀ f ∈ i.fields, C18Bounds.writeTaggedFieldLenOk f.payload.length = true := by
+  obtain ⟨ht, hf⟩ := parseSigned_ok_bounds timestamp_field_accepted s i h
+  have hr := timestamp_roundtrip i.timestamp ht
+  refine ⟨hr.1, hr.2.1, ?_⟩
+  intro f hfm
+  simpa [C18Bounds.writeTaggedFieldLenOk] using hf f hfm
+
+/-- Expiry (`x`) and min-final-CLTV (`c`) fields, for ALL u64 values: the value is written with the
+    minimal number of base-32 digits — at most `ENCODE_INT_BUF` = 13, so the fixed output buffer of
+    `encode_int_be_base32` is never overrun and the 10-bit length is never exceeded —, the length
+    `encoded_int_be_base32_size` announces is the number of digits written, and the field parses
+    back to the same value in the same canonical form. -/
+theorem expiry_cltv_roundtrip (tag : U5) (htag : tag = tagExpiryTime ∨ tag = tagMinFinalCltvExpiryDelta)
+    (v : Nat) (hv : v < 2 ^ C18Bounds.ENCODED_INT_BITS) :
+    (encodeIntBe v).length ≤ C18Bounds.ENCODE_INT_BUF ∧
+    C18Bounds.writeTaggedFieldLenOk (encodeIntBe v).length = true ∧
+    encodedIntBeBase32Size v = (encodeIntBe v).length ∧
+    parseU64Be (encodeIntBe v) = some v ∧
+    interpField tag (encodeIntBe v) = .ok (.known (encodeIntBe v)) := by
+  have h64 : v < 2 ^ 64 := hv
+  have hlen : (encodeIntBe v).length ≤ 13 :=
+    (encodeIntBe_length_le_iff v 13).mpr (Nat.lt_trans h64 (by decide))
+  have hp : parseU64Be (encodeIntBe v) = some v := by
+    rw [parseU64Be_closed, parseIntBe_encodeIntBe]; simp [h64]
+  refine ⟨hlen, ?_, encodedIntBeBase32Size_eq v, hp, ?_⟩
+  · simp only [C18Bounds.writeTaggedFieldLenOk, decide_eq_true_eq]; omega
+  · rcases htag with rfl | rfl <;> simp [interpField, interpU64, hp, tagExpiryTime, tagMinFinalCltvExpiryDelta,
+      tagPaymentHash, tagDescription, tagPayeePubKey, tagDescriptionHash]
+
+/-- … and a value that does not fit a u64 is refused (`IntegerOverflowError`), never wrapped. -/
+theorem expiry_cltv_overflow_rejected (tag : U5) (htag : tag = tagExpiryTime ∨ tag = tagMinFinalCltvExpiryDelta)
+    (p : List U5) (h : 2 ^ C18Bounds.PARSE_U64_BITS ≤ parseIntBe p) :
+    interpField tag p = .error .integerOverflowError := by
+  have h64 : ¬ parseIntBe p < 2 ^ 64 := Nat.not_lt.mpr h
+  have hp : parseU64Be p = none := by rw [parseU64Be_closed]; simp [h64]
+  rcases htag with rfl | rfl <;> simp [interpField, interpU64, hp, tagExpiryTime, tagMinFinalCltvExpiryDelta,
+      tagPaymentHash, tagDescription, tagPayeePubKey, tagDescriptionHash]
+
+/-- non-vacuity: 0 is the empty payload, `u64::MAX` takes thirteen symbols, `2^64` is refused -/
+example : encodeIntBe 0 = [] ∧ (encodeIntBe (2 ^ 64 - 1)).length = 13 ∧
+    interpField tagExpiryTime (encodeIntBe (2 ^ 64 - 1)) = .ok (.known (encodeIntBe (2 ^ 64 - 1))) :=
+  ⟨by decide, by decide, (expiry_cltv_roundtrip _ (Or.inl rfl) _ (by decide)).2.2.2.2⟩
+example : interpField tagMinFinalCltvExpiryDelta (encodeIntBe (2 ^ 64)) = .error .integerOverflowError :=
+  expiry_cltv_overflow_rejected _ (Or.inr rfl) _ (by rw [parseIntBe_encodeIntBe]; decide)
+
+/-- Tagged-field length limits.  (1) `Description::new` / `payment_metadata` accept EXACTLY the byte
+    lengths whose base-32 form fits the 10-bit length field, so nothing a builder accepts trips
+    `assert!(len < 1024)` and nothing the field can carry is refused by the constructor the parser
+    `expect`s to succeed; (2) `PrivateRoute::new` accepts exactly the hop counts (≤ 12) whose 51-byte hops fit; (3) conversely every
+    payload length the 10-bit field can announce decodes to an accepted description length;
+    (4) `bytes_size_to_base32_size` is the number of symbols actually written. -/
+theorem tagged_field_length_limits :
+    (∀ n, descriptionLenOk n = C18Bounds.writeTaggedFieldLenOk (C18Bounds.bytesSizeToBase32Size n)) ∧
+    (∀ n, paymentMetadataLenOk n = C18Bounds.writeTaggedFieldLenOk (C18Bounds.bytesSizeToBase32Size n)) ∧
+    (∀ hops, C18Bounds.privateRouteHopsOk hops =
+        C18Bounds.writeTaggedFieldLenOk (C18Bounds.bytesSizeToBase32Size (hops * C18Bounds.ROUTE_HOP_BYTES_SER))) ∧
+    (∀ p : List U5, C18Bounds.writeTaggedFieldLenOk p.length = true → descriptionLenOk (fesToBytes p).length = true) ∧
+    (∀ b : List UInt8, C18Bounds.bytesSizeToBase32Size b.length = (bytesToFes b).length) := by
+  have hw : ∀ len, C18Bounds.writeTaggedFieldLenOk len = true ↔ len < 1024 := by
+    intro len; unfold C18Bounds.writeTaggedFieldLenOk; exact decide_eq_true_iff
+  have hs : ∀ n, C18Bounds.bytesSizeToBase32Size n = (n * 8 + 4) / 5 := by
+    intro n; unfold C18Bounds.bytesSizeToBase32Size
+    simp only
+    split <;> rename_i h <;> simp only [decide_eq_true_eq] at h <;> omega
+  have hd : ∀ n, descriptionLenOk n = true ↔ n ≤ 639 := by
+    intro n; unfold descriptionLenOk C18Bounds.descriptionTooLong C18Bounds.MAX_TAGGED_FIELD_DATA_BYTES
+    rw [Bool.not_eq_true', decide_eq_false_iff_not]; omega
+  have hm : ∀ n, paymentMetadataLenOk n = true ↔ n ≤ 639 := by
+    intro n; unfold paymentMetadataLenOk C18Bounds.paymentMetadataTooLong C18Bounds.MAX_TAGGED_FIELD_DATA_BYTES
+    rw [Bool.not_eq_true', decide_eq_false_iff_not]; omega
+  have hh : ∀ hops, C18Bounds.privateRouteHopsOk hops = true ↔ hops ≤ 12 := by
+    intro hops; unfold C18Bounds.privateRouteHopsOk; exact decide_eq_true_iff
+  refine ⟨?_, ?_, ?_, ?_, bytesSizeToBase32Size_eq⟩
+  · intro n; rw [Bool.eq_iff_iff, hd, hw, hs]; omega
+  · intro n; rw [Bool.eq_iff_iff, hm, hw, hs]; omega
+  · intro hops
+    rw [Bool.eq_iff_iff, hh, hw, hs]; unfold C18Bounds.ROUTE_HOP_BYTES_SER; omega
+  · intro p h
+    rw [hw] at h
+    exact descriptionLenOk_of_syms p h
+
+example : descriptionLenOk 639 = true ∧ descriptionLenOk 640 = false ∧
+    C18Bounds.bytesSizeToBase32Size 639 = 1023 ∧ C18Bounds.bytesSizeToBase32Size 640 = 1024 := by decide
+
+/-- The 10-bit length itself: what `write_tagged_field` accepts is split into two symbols `< 32` that
+    `parse_tagged_parts` reads back as the same number, and any two symbols give a length that fits
+    the `u16` of `parse_u16_be(..).expect("can't overflow")` and the bound of the writer. -/
+theorem tagged_length_field (len : Nat) (l1 l2 : U5) :
+    (C18Bounds.writeTaggedFieldLenOk len = true →
+      len / C18Bounds.TAGGED_LEN_RADIX < 32 ∧ len % C18Bounds.TAGGED_LEN_RADIX < 32 ∧
+      parseIntBe [UInt8.ofNat (len / C18Bounds.TAGGED_LEN_RADIX), UInt8.ofNat (len % C18Bounds.TAGGED_LEN_RADIX)] = len) ∧
+    (l1 < 32 → l2 < 32 → parseIntBe [l1, l2] < 2 ^ C18Bounds.PARSE_U16_BITS ∧
+      C18Bounds.writeTaggedFieldLenOk (parseIntBe [l1, l2]) = true) := by
+  constructor
+  · intro h
+    simp only [C18Bounds.writeTaggedFieldLenOk, decide_eq_true_eq] at h
+    simp only [C18Bounds.TAGGED_LEN_RADIX]
+    refine ⟨by omega, by omega, ?_⟩
+    have := len_syms len h
+    simpa [parseIntBe] using this
+  · intro h1 h2
+    have := len10_lt h1 h2
+    simp only [parseIntBe, List.foldl_cons, List.foldl_nil, Nat.zero_mul, Nat.zero_add,
+      C18Bounds.writeTaggedFieldLenOk, C18Bounds.PARSE_U16_BITS, decide_eq_true_eq]
+    omega
+
+/-- Amounts: the builder accepts an amount iff its pico-BTC value (`amount_msat * 10`, the translated
+    `checked_mul`) fits a u64 — from 0 to the maximum — and every accepted amount round-trips through
+    the human-readable part (`amount_hrp_roundtrip`). -/
+theorem amount_builder_range (cur : Currency) (m : Nat) :
+    ((hrpOfAmount cur (some m)).isSome ↔ m * 10 < 2 ^ 64) ∧
+    (hrpOfAmount cur (some m)).isSome = (C18Bounds.amountPicoOfMsat m).isSome := by
+  have h1 : (hrpOfAmount cur (some m)).isSome ↔ m * 10 < 2 ^ 64 := by
+    unfold hrpOfAmount
+    simp only [Bolt11.u64Max]
+    by_cases h : m * 10 > 2 ^ 64 - 1
+    · have : ¬ m * 10 < 2 ^ 64 := by omega
+      simp [h, this]
+    · have : m * 10 < 2 ^ 64 := by omega
+      simp [h, this]
+  refine ⟨h1, ?_⟩
+  rw [Bool.eq_iff_iff, h1]
+  unfold C18Bounds.amountPicoOfMsat chkMul64
+  by_cases h : m * 10 < 2 ^ 64 <;> simp [h]
+
+example : (hrpOfAmount .bitcoin (some 0)).isSome = true ∧ (hrpOfAmount .bitcoin (some 1844674407370955161)).isSome = true ∧
+    (hrpOfAmount .bitcoin (some 1844674407370955162)).isSome = false := by decide
+
+open Ldk.C18Bounds in
+/-- Every translated bound that the hand-written model does NOT call directly (framing of the data
+    part and of tagged fields, integer bases, amount arithmetic) equals the literal the model uses —
+    for all arguments; and the fixed lengths the serialiser announces are the only lengths the parser
+    accepts for those fields.  A changed comparison / literal in lib.rs, de.rs or ser.rs breaks this. -/
+theorem model_bounds_match_source :
+    -- data part: signature and timestamp split
+    ((∀ n, dataTooShortForSignature n = decide (n < Bolt11.sigLen5)) ∧
+     (∀ n, signatureWrongLen n = decide (n ≠ Bolt11.sigLen5)) ∧
+     (∀ n, dataTooShortForTimestamp n = decide (n < 7)) ∧
+     (∀ n, timestampWrongLen n = decide (n ≠ 7)) ∧ TIMESTAMP_PAD_TO = 7 ∧ 5 * TIMESTAMP_PAD_TO = TIMESTAMP_BITS) ∧
+    -- integers
+    (PARSE_INT_BASE = 32 ∧ ENCODE_INT_BASE = 32 ∧ TAGGED_LEN_RADIX = 32 ∧ PARSE_U64_BITS = 64 ∧
+     ENCODED_INT_BITS = 64 ∧ PARSE_U16_BITS = 16 ∧ 32 ^ ENCODE_INT_BUF ≥ 2 ^ ENCODED_INT_BITS) ∧
+    -- tagged-field framing
+    ((∀ n, taggedHeaderTooShort n = decide (n < 3)) ∧ (∀ n, taggedFieldTooShort n = decide (n < 3)) ∧
+     TAGGED_LEN_FROM = 1 ∧ TAGGED_LEN_TO = 3 ∧ TAGGED_DATA_FROM = 3 ∧
+     (∀ len, taggedLastElement len = 3 + len) ∧ (∀ a b, taggedTruncated a b = decide (a < b))) ∧
+    -- per-tag lengths: what ser.rs announces is the one length de.rs accepts
+    ((∀ n, paymentHashWrongLen n = decide (n ≠ PAYMENT_HASH_BASE32_LEN)) ∧
+     (∀ n, paymentSecretWrongLen n = decide (n ≠ PAYMENT_SECRET_BASE32_LEN)) ∧
+     (∀ n, sha256WrongLen n = decide (n ≠ bytesSizeToBase32Size 32)) ∧
+     (∀ n, payeePubKeyWrongLen n = decide (n ≠ bytesSizeToBase32Size 33)) ∧
+     FALLBACK_HASH_BASE32_LEN = 1 + bytesSizeToBase32Size 20 ∧ ROUTE_HOP_BYTES = ROUTE_HOP_BYTES_SER ∧
+     (∀ n, fallbackProgramLenBad n = (decide (n < 2) || decide (n > 40))) ∧
+     (∀ n, fallbackProgramLenBad n = false → writeTaggedFieldLenOk (1 + bytesSizeToBase32Size n) = true) ∧
+     FALLBACK_SEGWIT_VERSION_HI < FALLBACK_P2PKH_VERSION ∧ FALLBACK_P2PKH_VERSION < FALLBACK_P2SH_VERSION ∧
+     FALLBACK_P2SH_VERSION < 32) ∧
+    -- amounts
+    ((∀ m, amountPicoOfMsat m = if m * 10 > Bolt11.u64Max then none else some (m * 10)) ∧
+     (∀ a mult, hrpAmountTimesPrefix a mult = if a * mult > Bolt11.u64Max then none else some (a * mult)) ∧
+     (∀ h : RawHrp, h.amountPico = h.rawAmount.bind fun v =>
+        amountPicoBtc v (match h.si with | some s => s.multiplier | none => NO_PREFIX_UNIT)) ∧
+     (∀ p, amountImprecise p = !(p % 10 == 0))) ∧
+    -- panic sites and "accepts every u64" shapes
+    (timestampOverflowPanics = true ∧ timestampRejectedPanics = true ∧ descriptionRejectedPanics = true ∧
+     expiryAcceptsEveryU64 = true ∧ minFinalCltvAcceptsEveryU64 = true) := by
+  have hchk : ∀ a b, chkMul64 a b = if a * b > Bolt11.u64Max then none else some (a * b) := by
+    intro a b
+    unfold chkMul64 Bolt11.u64Max
+    by_cases h : a * b < 2 ^ 64
+    · have : ¬ a * b > 2 ^ 64 - 1 := by omega
+      simp [h, this]
+    · have : a * b > 2 ^ 64 - 1 := by omega
+      simp [h, this]
+  refine ⟨⟨fun _ => rfl, fun _ => rfl, fun _ => rfl, fun _ => rfl, rfl, rfl⟩,
+    ⟨rfl, rfl, rfl, rfl, rfl, rfl, by decide⟩,
+    ⟨fun _ => rfl, fun _ => rfl, rfl, rfl, rfl, fun _ => rfl, fun _ _ => rfl⟩,
+    ⟨fun _ => rfl, fun _ => rfl, fun _ => rfl, fun _ => rfl, by decide, rfl, fun _ => rfl, ?_, by decide, by decide, by decide⟩,
+    ⟨fun m => hchk m 10, fun a m => hchk a m, ?_, ?_⟩,
+    ⟨rfl, rfl, rfl, rfl, rfl⟩⟩
+  · intro n h
+    unfold fallbackProgramLenBad at h
+    simp only [Bool.or_eq_false_iff, decide_eq_false_iff_not] at h
+    unfold writeTaggedFieldLenOk bytesSizeToBase32Size
+    simp only [decide_eq_true_eq]
+    split <;> omega
+  · intro h
+    cases h with
+    | mk cur raw si =>
+      cases raw with
+      | none => rfl
+      | some v =>
+        simp only [RawHrp.amountPico, Option.bind_some, amountPicoBtc, hchk]
+        cases si <;> simp [Bolt11.noPrefixUnit, NO_PREFIX_UNIT]
+  · intro p
+    unfold amountImprecise
+    by_cases h : p % 10 = 0 <;> simp [h]
+
+end bounds
 
 /-! ## constants: the literals the models use are the ones in the Rust source (regenerated each run) -/
 section constants
